@@ -1,4 +1,4 @@
-import MgpuProofs.C16Prog
+import MgpuProofs.C16Epoch
 /-! # C16 — property theorems (address translation forwards every access faithfully, exactly once)
 
 All statements are about `run c ops`: the tick-exact model of the address translator started from
@@ -213,5 +213,315 @@ example :
     s.flushing = false ∧ s.ctlIn = [] ∧ s.botOut.length < 1 ∧ s.trIn.length = 1 ∧
     (∃ t ∈ s.txs, t.done = true) ∧ mu s = 7 ∧ mu (tick ⟨1, 12⟩ s).1 = 6 := by
   decide
+
+/-! ## The closed world: translator + honest translation service + honest memory + wake rule
+
+`Reach c e w`: `w` is reachable from the empty world by any sequence of `HOp`s (`MgpuModel/C16_World.lean`):
+accesses arrive at any time; the translation service takes lookups from the translation port and
+answers each one once, in any order, after any delay, with the page table `e.pt`; the memory does
+the same with `e.md`; every buffer is bounded; flush at any time, restart only while flushing; the
+component is ticked only while Akita's scheduler has a tick event for it (`awake`). Every move is
+the same `step`/`tick` the driver runs (`hstep_core`), so `at_forward_once` … `at_no_loss` hold in
+every reachable world. `wmu` = `mu` + 2 per message held by a neighbour + the control port. -/
+
+/-- **End-to-end faithfulness in the closed world.** In every reachable world no access is answered
+twice, and every answer `x` carries the original request's ID and the data the memory holds for a
+request with the access's own payload at `pt (its own PID) (its own page) + page offset`. -/
+theorem at_world_faithful (c : Cfg) (e : Env) (w : CW) (hr : Reach c e w) :
+    (w.s.answered.map (·.top.id)).Nodup ∧
+    ∀ x ∈ w.s.answered,
+      x.rsp.rspTo = x.top.id ∧ (x.top, x.epoch) ∈ w.s.received ∧
+      ∃ l ∈ w.s.forwarded, l.top = x.top ∧ l.breq.bid = x.bid ∧ l.breq.pl = x.top.pl ∧
+        l.breq.paddr = e.pt x.top.pid (pageId c.lg x.top.vaddr) + x.top.vaddr % 2 ^ c.lg ∧
+        x.rsp.data = e.md l.breq := by
+  obtain ⟨ops, hops⟩ := reach_run hr
+  have hw := reach_winv hr
+  have hu : UInv w.s := hops ▸ run_uinv c ops
+  have hc : CInv w.s := hops ▸ run_cinv c ops
+  have hm : MInv c w.s := hops ▸ run_minv c ops
+  have hresp := at_respond_once c ops
+  rw [← hops] at hresp
+  have htruth : ∀ q ∈ w.s.asked, ∀ r ∈ w.s.tdel, r.rspTo = q.tid → r.paddr = e.pt q.pid q.vpage := by
+    intro q hq r hrr he
+    obtain ⟨q', hq', rfl⟩ := hw.tT r hrr
+    have : q' = q := eq_of_nodup_map (·.tid) _ hu.and_ q' hq' q hq he
+    rw [this]
+  have hown := at_forward_own_page c ops e.pt (by rw [← hops]; exact htruth)
+  rw [← hops] at hown
+  refine ⟨hresp.1, ?_⟩
+  intro x hx
+  obtain ⟨k1, ⟨l, hl, k2, k3, _⟩, m, hm', k4, k5⟩ := hresp.2.2.1 x hx
+  obtain ⟨l', hl', rfl⟩ := hw.tM m hm'
+  have hll : l' = l := eq_of_count_le_one (fun l : FwdLog => l.breq.bid) _ hc.d l' hl' l hl (by
+    show l'.breq.bid = l.breq.bid
+    rw [k3]; exact k4)
+  subst hll
+  obtain ⟨p1, p2⟩ := hown l' hl'
+  refine ⟨k1, (hm.ans x hx).1, l', hl', k2, k3, ?_, ?_, k5.symm⟩
+  · rw [p2, k2]
+  · rw [p1, k2]
+
+/-- **Never stuck with work pending.** In every reachable world (any interleaving, any delays,
+flushes anywhere) either every access accepted since the last flush has been answered — and,
+unless a flush is still waiting for its restart, nothing at all is left anywhere (`wmu w = 0`) —
+or some move of the translator or of an honest neighbour is enabled that strictly decreases the
+world measure: a tick *for which the component is awake*, the service answering a lookup, the
+memory answering a request, or a neighbour taking a message from an outgoing buffer. -/
+theorem at_every_access_answered (c : Cfg) (e : Env) (w : CW) (hwid : 0 < c.width) (hr : Reach c e w) :
+    ((∀ p ∈ w.s.received, p.2 = w.s.epoch → ∃ x ∈ w.s.answered, x.top = p.1) ∧
+      (w.s.flushing = false → wmu w = 0)) ∨
+    ∃ o, o.internal = true ∧ wmu (hstep c e w o) < wmu w :=
+  stuck_free hwid hr
+
+/-- **Termination of every fair run.** From any reachable world: a run of productive moves has at
+most `wmu w` steps; when no productive move is left the world is settled (`Settled`: all accepted
+accesses answered, nothing left unless flushing); and such a run exists. So any schedule that keeps
+making enabled productive moves ends, after at most `wmu w` of them, with every accepted access
+answered. -/
+theorem at_world_terminates (c : Cfg) (e : Env) (w : CW) (hwid : 0 < c.width) (hr : Reach c e w) :
+    (∀ os, ProdSeq c e w os → os.length ≤ wmu w) ∧
+    (∀ os, ProdSeq c e w os → (¬ ∃ o, Productive c e (hrun c e w os) o) → Settled (hrun c e w os)) ∧
+    (∃ os, ProdSeq c e w os ∧ Settled (hrun c e w os)) := by
+  refine ⟨?_, ?_, prodseq_exists hwid _ w hr (Nat.le_refl _)⟩
+  · intro os h
+    have := prodseq_len c e os w h
+    omega
+  · intro os _ hno
+    rcases stuck_free hwid (reach_hrun hr os) with h | h
+    · exact h
+    · exact absurd h hno
+
+/-- **Nothing regresses in a closed run.** Whatever the component and its honest neighbours do, in
+whatever order — idle ticks, refused deliveries and empty retrievals included — the world measure
+never increases. Hence an arbitrary closed run (no new access, no new control command) contains at
+most `wmu w` productive moves, and by `at_every_access_answered` one more is enabled as long as an
+accepted access is unanswered: every fair closed run ends with all accepted accesses answered. -/
+theorem at_world_monotone (c : Cfg) (e : Env) (w : CW) (os : List HOp) (h : ∀ o ∈ os, o.internal = true) :
+    wmu (hrun c e w os) ≤ wmu w :=
+  wmu_monotone_run c e os w h
+
+/-- **The property, end to end.** From any reachable world the honest neighbours and the awake
+component can complete the work, and then every access accepted since the last flush has exactly
+one answer; it carries the access's own ID and the memory's data for a request with the access's
+own payload at the page-table entry of the access's OWN (PID, page) plus its page offset. -/
+theorem at_end_to_end (c : Cfg) (e : Env) (w : CW) (hwid : 0 < c.width) (hr : Reach c e w) :
+    ∃ os, ProdSeq c e w os ∧
+      ∀ p ∈ (hrun c e w os).s.received, p.2 = (hrun c e w os).s.epoch →
+        ∃ x ∈ (hrun c e w os).s.answered, x.top = p.1 ∧ x.rsp.rspTo = p.1.id ∧
+          (∀ y ∈ (hrun c e w os).s.answered, y.top.id = p.1.id → y = x) ∧
+          ∃ b : BReq, b.pl = p.1.pl ∧
+            b.paddr = e.pt p.1.pid (pageId c.lg p.1.vaddr) + p.1.vaddr % 2 ^ c.lg ∧
+            x.rsp.data = e.md b := by
+  obtain ⟨os, h1, h2⟩ := prodseq_exists hwid _ w hr (Nat.le_refl _)
+  refine ⟨os, h1, ?_⟩
+  intro p hp he
+  obtain ⟨x, hx, hxp⟩ := h2.1 p hp he
+  obtain ⟨hnd, hall⟩ := at_world_faithful c e _ (reach_hrun hr os)
+  obtain ⟨k1, _, l, _, _, _, k4, k5, k6⟩ := hall x hx
+  refine ⟨x, hx, hxp, by rw [k1, hxp], ?_, l.breq, by rw [k4, hxp], by rw [k5, hxp], k6⟩
+  intro y hy hye
+  exact eq_of_nodup_map (fun z : AnsLog => z.top.id) _ hnd y hy x hx (by
+    show y.top.id = x.top.id
+    rw [hye, hxp])
+
+/-- **No lost wake-up.** Akita ticks the translator only while a tick event is scheduled: `Handle`
+re-schedules iff `Tick` returned `true`; a delivery into an empty incoming buffer and a retrieval
+from a full outgoing buffer schedule one. In every reachable world, whenever the component is
+asleep every pipeline stage and the control handler are blocked (`Quiet`) and a tick would change
+nothing at all — so no work is ever left waiting for a tick that is not coming. This holds
+*without exception*, also after the tick that records a reply while the bottom port is full
+(state changed, `false` returned): see `reply_while_full_wakes`. -/
+theorem no_lost_wakeup (c : Cfg) (e : Env) (w : CW) (hwid : 0 < c.width) (hr : Reach c e w)
+    (ha : w.awake = false) : Quiet c w.s ∧ tick c w.s = (w.s, false) :=
+  ⟨reach_quiet hwid hr ha, quiet_tick c w.s (reach_winv hr).noBad (reach_quiet hwid hr ha)⟩
+
+/-- The generic lemma "a tick that reports no progress leaves the state unchanged" (DESIGN §1.3),
+restricted to the `done` flags of the transactions. -/
+def tick_idle_unchanged_full : Prop :=
+  ∀ (c : Cfg) (ops : List Op), (tick c (run c ops)).2 = false →
+    (tick c (run c ops)).1.txs.map (·.done) = (run c ops).txs.map (·.done)
+
+/-- It is false for the translator: the reply-while-bottom-full tick marks a transaction done and
+returns `false`. -/
+theorem tick_idle_unchanged_refuted : ¬ tick_idle_unchanged_full := by
+  intro h
+  have := h ⟨1, 12⟩ (demoOps.take 9) (by decide)
+  revert this
+  decide
+
+/-- What does hold: when the awake component's tick reports no progress, the *next* tick would be a
+no-op (`tick_idle_unchanged_partial`), i.e. going to sleep loses nothing. -/
+theorem tick_idle_unchanged_partial (c : Cfg) (e : Env) (w : CW) (hwid : 0 < c.width) (hr : Reach c e w)
+    (ha : w.awake = true) (hf : (tick c w.s).2 = false) :
+    tick c (tick c w.s).1 = ((tick c w.s).1, false) := by
+  have hr' := Reach.step w .tick hr
+  have := (no_lost_wakeup c e _ hwid hr' (by simp [hstep, ha, hf])).2
+  simpa [hstep, ha] using this
+
+/-- **The reply-while-bottom-full case decided.** If the component is asleep while a completed
+transaction still holds requests (the state that tick leaves behind), then the bottom port's
+outgoing buffer is exactly full; the next retrieval from it wakes the component
+(`NotifyPortFree`), and the tick that follows makes progress. So the component can not stay asleep
+with that work pending once the memory side takes a request. -/
+theorem reply_while_full_wakes (c : Cfg) (e : Env) (w : CW) (hwid : 0 < c.width) (hr : Reach c e w)
+    (ha : w.awake = false) (t : Tx) (ht : t ∈ w.s.txs) (hdone : t.done = true) :
+    w.s.botOut.length = c.width ∧ (hstep c e w .drainBot).awake = true ∧
+    (tick c (hstep c e w .drainBot).s).2 = true := by
+  obtain ⟨ops, hops⟩ := reach_run hr
+  have hm : MInv c w.s := hops ▸ run_minv c ops
+  have hb : BInv c w.s := hops ▸ run_binv c ops
+  have hn : NInv w.s := hops ▸ run_ninv c ops
+  have hq := (reach_quiet hwid hr ha).p
+  have hfull : w.s.botOut.length = c.width := by
+    unfold parseQ at hq
+    have hsome := popFirst_some_of_mem isDrainable _ t ht (by
+      cases hr' : t.reqs with
+      | nil => exact absurd hr' (hm.tx t ht).1
+      | cons a rs => simp [isDrainable, hdone, hr'])
+    cases hp : popFirst isDrainable w.s.txs with
+    | none => rw [hp] at hsome; simp at hsome
+    | some y =>
+      rw [hp] at hq
+      have h1 : c.width ≤ w.s.botOut.length := hq
+      have := hb.bot
+      omega
+  have hfl : w.s.flushing = false := by
+    cases h : w.s.flushing with
+    | false => rfl
+    | true => have := (hn.fl h).1; rw [this] at ht; simp at ht
+  have hne : w.s.botOut ≠ [] := by
+    intro h0; rw [h0] at hfull; simp at hfull; omega
+  obtain ⟨b, bs, hbo⟩ := List.exists_cons_of_ne_nil hne
+  have hr' := Reach.step w .drainBot hr
+  obtain ⟨ops', hops'⟩ := reach_run hr'
+  have hd' : DInv (hstep c e w .drainBot).s := hops' ▸ run_dinv c ops'
+  have hm' : MInv c (hstep c e w .drainBot).s := hops' ▸ run_minv c ops'
+  have hs' : (hstep c e w .drainBot).s = step c w.s .drainBot := by simp [hstep, hbo]
+  refine ⟨hfull, by simp [hstep, hbo, ← hfull], ?_⟩
+  apply tick_enabled_done c _ hd' (fun t ht => (hm'.tx t ht).1) _ hwid
+  · rw [hs']
+    show w.s.botOut.tail.length < c.width
+    rw [← hfull, hbo]
+    simp
+  · rw [hs']; exact ⟨t, ht, hdone⟩
+  · rw [hs']; exact hfl
+
+/-- **Flush in the closed world.** `askedAt` / `forwarded` tag every lookup sent and every request
+forwarded with the flush epoch in which that happened. In every reachable world — in particular
+after flush + restart, with replies to discarded lookups and responses to discarded requests still
+on their way, arriving in any order and after any delay — (1, 2) no pending transaction and no
+in-flight record carries the id of a lookup / request of an *earlier* epoch, so a late message can
+never be taken for a current one; (3, 4) a late reply (late memory response) that reaches the head
+of its port is dropped: the stage returns exactly the old state minus that message (plus its trace
+event) — transactions, in-flight records, logs, all other buffers and the id counters are
+untouched; (5) every lookup ever sent has such a tag. Together with `at_every_access_answered` /
+`at_end_to_end`, which hold in these worlds too, later traffic is answered exactly as specified,
+late messages or not. -/
+theorem at_flush_world (c : Cfg) (e : Env) (w : CW) (hr : Reach c e w) :
+    (∀ t ∈ w.s.txs, ∀ p ∈ w.s.askedAt, p.2 < w.s.epoch → p.1 ≠ t.treq.tid) ∧
+    (∀ f ∈ w.s.infl, ∀ l ∈ w.s.forwarded, l.epoch < w.s.epoch → l.breq.bid ≠ f.breq.bid) ∧
+    (∀ p ∈ w.s.askedAt, p.2 < w.s.epoch → ∀ r rest, w.s.trIn = r :: rest → r.rspTo = p.1 →
+      popFirst isDrainable w.s.txs = none →
+      parseTranslation c w.s = ({ w.s with trIn := rest, ev := s!"X{r.rspTo}" :: w.s.ev }, true)) ∧
+    (∀ l ∈ w.s.forwarded, l.epoch < w.s.epoch → ∀ r rest, w.s.botIn = r :: rest → r.rspTo = l.breq.bid →
+      respond c w.s = ({ w.s with botIn := rest, ev := s!"Y{r.rspTo}" :: w.s.ev }, true)) ∧
+    (∀ q ∈ w.s.asked, ∃ ep, (q.tid, ep) ∈ w.s.askedAt ∧ ep ≤ w.s.epoch) := by
+  have hw := reach_winv hr
+  have he := reach_einv hr
+  have h1 : ∀ t ∈ w.s.txs, ∀ p ∈ w.s.askedAt, p.2 < w.s.epoch → p.1 ≠ t.treq.tid := by
+    intro t ht p hp hlt
+    obtain ⟨q, hq, hqe⟩ := he.as_ p hp hlt
+    rw [← hqe]; exact hw.t.fT t ht q hq
+  have h2 : ∀ f ∈ w.s.infl, ∀ l ∈ w.s.forwarded, l.epoch < w.s.epoch → l.breq.bid ≠ f.breq.bid :=
+    fun f hf l hl hlt => hw.t.fM f hf l (he.fs l hl hlt)
+  refine ⟨h1, h2, ?_, ?_, ?_⟩
+  · intro p hp hlt r rest htr hre hpo
+    exact parse_drops c w.s r rest htr hpo (fun t ht h => h1 t ht p hp hlt (hre ▸ h.symm))
+  · intro l hl hlt r rest hb hre
+    exact respond_drops c w.s r rest hb (fun f hf h => h2 f hf l hl hlt (hre ▸ h.symm))
+  · intro q hq
+    obtain ⟨ep, hep⟩ := he.aa q hq
+    exact ⟨ep, hep, he.ae _ hep⟩
+
+/-- the flushing tick takes the snapshots: afterwards everything sent so far is stale and nothing is held -/
+theorem at_flush_world_step (c : Cfg) (e : Env) (w : CW) (ha : w.awake = true)
+    (hf : (tick c w.s).1.epoch ≠ w.s.epoch) :
+    (hstep c e w .tick).staleT = (hstep c e w .tick).s.asked ∧
+    (hstep c e w .tick).staleM = (hstep c e w .tick).s.forwarded := by
+  simp [hstep, ha, hf]
+
+/-! ### Non-vacuity: a concrete closed world -/
+
+def demoEnv : Env := ⟨fun pid vp => 0x100000 * pid + vp, fun b => if b.pl.isWrite then none else some [b.paddr % 256]⟩
+
+/-- two PIDs on the same virtual page; the second reply arrives while the bottom port is full and
+the component goes to sleep on it -/
+def demoH1 : List HOp :=
+  [.access 1 0x1004 ⟨false, 4, [], []⟩, .tick, .drainTr, .ansT 0, .tick,
+   .access 2 0x1008 ⟨false, 4, [], []⟩, .tick, .drainTr, .ansT 0, .tick, .tick]
+
+/-- … the memory takes the first request (wake-up), the first access completes; then flush, restart, a
+new access, and only then the memory answers the request forwarded before the flush -/
+def demoH2 : List HOp :=
+  demoH1 ++ [.drainBot, .tick, .ansM 0, .tick, .drainTop, .drainBot, .flush, .tick, .drainCtl,
+    .restart, .tick, .drainCtl, .access 1 0x2010 ⟨false, 4, [], []⟩, .tick, .ansM 0]
+
+/-- every world of the demo runs below is reachable, so the closed-world theorems apply to them -/
+theorem demo_reach (os : List HOp) : Reach ⟨1, 12⟩ demoEnv (hrun ⟨1, 12⟩ demoEnv {} os) :=
+  reach_hrun Reach.init os
+
+/-- the world after `demoH1`: asleep with a completed transaction pending and the bottom port full
+(hypotheses of `no_lost_wakeup` and `reply_while_full_wakes`), not settled, productive move exists -/
+example :
+    let w := hrun ⟨1, 12⟩ demoEnv {} demoH1
+    w.awake = false ∧ w.s.txs.map (·.done) = [true] ∧ w.s.botOut.length = 1 ∧ w.s.trIn.length = 1 ∧
+    wmu w = 10 ∧ wmu (hstep ⟨1, 12⟩ demoEnv w .drainBot) = 9 ∧
+    (hstep ⟨1, 12⟩ demoEnv w .drainBot).awake = true := by
+  decide
+
+/-- the world after `demoH2`: the late memory response (bottom id 1, forwarded before the flush) sits
+at the head of the bottom port and is stale, while the access accepted after the restart waits for
+its translation under a fresh lookup id (hypotheses of `at_flush_world` (4)) -/
+example :
+    let w := hrun ⟨1, 12⟩ demoEnv {} demoH2
+    w.s.epoch = 1 ∧ w.s.flushing = false ∧ w.staleM.map (·.breq.bid) = [1, 0] ∧
+    w.s.botIn.map (·.rspTo) = [1] ∧ w.s.txs.map (·.treq.tid) = [2] ∧ w.staleT.map (·.tid) = [1, 0] ∧
+    w.s.askedAt = [(2, 1), (1, 0), (0, 0)] ∧
+    w.s.forwarded.map (fun l => (l.breq.bid, l.epoch)) = [(1, 0), (0, 0)] ∧
+    w.s.received.map (fun p => (p.1.id, p.2)) = [(2, 1), (1, 0), (0, 0)] := by
+  decide
+
+/-- … and completing the run answers the new access with the translation of its own (PID, page):
+`Settled`, one answer in epoch 1 with data `md` at `pt 1 0x2000 + 0x10` -/
+example :
+    let w := hrun ⟨1, 12⟩ demoEnv {}
+      (demoH2 ++ [.tick, .drainTr, .ansT 0, .tick, .drainBot, .ansM 0, .tick, .drainTop])
+    wmu w = 0 ∧ w.s.answered.map (fun x => (x.top.id, x.epoch, x.rsp.data)) =
+      [(2, 1, some [(0x100000 + 0x2000 + 0x10) % 256]), (0, 0, some [(0x100000 + 0x1000 + 4) % 256])] ∧
+    w.s.forwarded.map (fun l => (l.top.id, l.breq.bid, l.breq.paddr)) =
+      [(2, 2, 0x100000 + 0x2000 + 0x10), (1, 1, 0x200000 + 0x1000 + 8), (0, 0, 0x100000 + 0x1000 + 4)] := by
+  decide
+
+/-- the hypotheses of the closed-world theorems are met by these worlds: after `demoH1` the component
+is asleep (`no_lost_wakeup`) with a completed transaction pending (`reply_while_full_wakes`), the world is
+not settled, so `at_every_access_answered` yields a productive move -/
+example : ∃ o, o.internal = true ∧
+    wmu (hstep ⟨1, 12⟩ demoEnv (hrun ⟨1, 12⟩ demoEnv {} demoH1) o) < wmu (hrun ⟨1, 12⟩ demoEnv {} demoH1) := by
+  rcases at_every_access_answered ⟨1, 12⟩ demoEnv _ (by decide) (demo_reach demoH1) with h | h
+  · exact absurd (h.2 (by decide)) (by decide)
+  · exact h
+
+example := no_lost_wakeup ⟨1, 12⟩ demoEnv _ (by decide) (demo_reach demoH1) (by decide)
+
+example : ∃ t ∈ (hrun ⟨1, 12⟩ demoEnv {} demoH1).s.txs, t.done = true := by decide
+
+/-- the tick before the component fell asleep: awake, reports no progress, yet marks the transaction done -/
+example := tick_idle_unchanged_partial ⟨1, 12⟩ demoEnv _ (by decide) (demo_reach (demoH1.take 9))
+  (by decide) (by decide)
+
+/-- the flushing tick of `demoH2` (op 19): awake, epoch changes -/
+example := at_flush_world_step ⟨1, 12⟩ demoEnv (hrun ⟨1, 12⟩ demoEnv {} (demoH2.take 18)) (by decide) (by decide)
+
+example := at_end_to_end ⟨1, 12⟩ demoEnv _ (by decide) (demo_reach demoH2)
 
 end C16
